@@ -239,7 +239,7 @@ class Ctx:
         lines = []
         n_viol = 0
         known_hit = {}
-        rdir = os.path.join(repo.VERIF, "replays", self.prop)
+        rdir = os.path.join(os.environ.get("VERIF_OUT_DIR", repo.VERIF), "replays", self.prop)
         os.makedirs(rdir, exist_ok=True)
         for name, fails in sorted(self.failures.items()):
             unmatched = []
@@ -331,7 +331,7 @@ class Ctx:
             "wall_s": round(wall, 2),
             "violations": n_viol,
         }
-        edir = os.path.join(repo.VERIF, "evidence")
+        edir = os.path.join(os.environ.get("VERIF_OUT_DIR", repo.VERIF), "evidence")
         os.makedirs(edir, exist_ok=True)
         tmp = os.path.join(edir, f"{self.prop}.json.tmp")
         with open(tmp, "w") as fh:
